@@ -116,9 +116,10 @@ class LifecycleRun:
                 if t > loop.time():
                     s.advance(t - loop.time())
                 if action == "net":
-                    mode = "bad" if arg in ("blackout", "lossy", "rferr") else "ok"
+                    mode = "bad" if arg in ("blackout", "lossy", "rferr", "noping") else "ok"
                     s.net.blackhole = arg == "blackout"
                     s.net.phases = ([(loop.time(), 1e12, "lossy", 0.4)] if arg == "lossy" else
+                                    [(loop.time(), 1e12, "noping", None)] if arg == "noping" else
                                     [(loop.time(), 1e12, "rferr", None)] if arg == "rferr" else [])
                     if mode != getattr(self, "_mode", "ok"):
                         self.log.append({"k": "net", "mode": mode})
